@@ -212,7 +212,15 @@ pub fn compose_std_command<S: AsRef<OsStr>, SE: extensions::ShellExtensions>(
         for (func_name, registration) in context.shell.funcs().iter() {
             if registration.is_exported() {
                 let var_name = std::format!("BASH_FUNC_{func_name}%%");
-                let value = std::format!("() {}", registration.definition().body);
+                // bash only imports values that start with `() {`: a body that is not a brace
+                // group (`f() ( ... )`, `f() if ...`) is exported inside one, as bash does itself.
+                let body = &registration.definition().body;
+                let value = if matches!(body.0, brush_parser::ast::CompoundCommand::BraceGroup(_))
+                {
+                    std::format!("() {body}")
+                } else {
+                    std::format!("() {{ \n{body}\n}}")
+                };
                 cmd.env(var_name, value);
             }
         }
